@@ -54,6 +54,17 @@ fn min_crossing_sin(a: Coord2, b: Coord2, poly: &Poly) -> f64 {
     m
 }
 
+/// points the property's precondition excludes (but which are farther than 0.1 from the boundary): evaluated for information
+/// only - the agreement with the winding number is counted, a disagreement is not a failure of the property
+fn outside_precondition(stats: &mut Stats, path: &P, p: Coord2, flat: &Poly, fine: &Poly, class: &str) {
+    let want = winding(p, flat) != 0;
+    if (winding(p, fine) != 0) != want { return; }
+    match std::panic::catch_unwind(std::panic::AssertUnwindSafe(|| path_contains_point(path, &p))) {
+        Ok(got) => stats.count(&format!("outside_precondition.{}.{}", class, if got == want { "agrees_with_winding" } else if want { "inside_reported_outside" } else { "outside_reported_inside" })),
+        Err(_) => stats.count(&format!("outside_precondition.{}.panic", class)),
+    }
+}
+
 fn check_path(stats: &mut Stats, rng: &mut Rng, path: &P, kind: &str, n_points: usize) {
     let flat = flatten(path);
     let fine = flatten_fine(path);
@@ -88,8 +99,8 @@ fn check_path(stats: &mut Stats, rng: &mut Rng, path: &P, kind: &str, n_points: 
         // domain: farther than 0.1 from the boundary
         if dist_poly(p, &fine) <= 0.1 + 0.005 { stats.excluded += 1; stats.count("excluded.point_within_0.1_of_boundary"); continue; }
         // precondition on the segment from the point to the corner
-        if verts.iter().any(|v| dist(*v, corner) < 0.1) { stats.excluded += 1; stats.count("excluded.segment_starts_within_0.1_of_vertex(box_corner_is_a_vertex)"); continue; }
-        if verts.iter().any(|v| dist_seg(*v, corner, p) < 0.1) { stats.excluded += 1; stats.count("excluded.segment_within_0.1_of_vertex"); continue; }
+        if verts.iter().any(|v| dist(*v, corner) < 0.1) { stats.excluded += 1; stats.count("excluded.segment_starts_within_0.1_of_vertex(box_corner_is_a_vertex)"); outside_precondition(stats, path, p, &flat, &fine, "box_corner_is_a_vertex"); continue; }
+        if verts.iter().any(|v| dist_seg(*v, corner, p) < 0.1) { stats.excluded += 1; stats.count("excluded.segment_within_0.1_of_vertex"); outside_precondition(stats, path, p, &flat, &fine, "segment_within_0.1_of_vertex"); continue; }
         let dir = p - corner;
         let mut tangent = false;
         for c in &cs {
@@ -99,7 +110,7 @@ fn check_path(stats: &mut Stats, rng: &mut Rng, path: &P, kind: &str, n_points: 
             }
             if tangent { break; }
         }
-        if tangent { stats.excluded += 1; stats.count("excluded.segment_near_tangent_point"); continue; }
+        if tangent { stats.excluded += 1; stats.count("excluded.segment_near_tangent_point"); outside_precondition(stats, path, p, &flat, &fine, "segment_near_tangent_point"); continue; }
         let want = winding(p, &flat) != 0;
         if (winding(p, &fine) != 0) != want { stats.excluded += 1; stats.count("excluded.oracle_flattenings_disagree"); continue; }
         if want { stats.count("point.inside"); } else { stats.count("point.outside"); }
@@ -139,4 +150,199 @@ pub fn search(seed: u64, n: u64) {
         check_path(&mut stats, &mut rng, &p, s.kind, 100);
     }
     stats.print(PROP, "search");
+}
+
+// ------------------------------------------------------------------------------------------------ correspondence
+
+use flo_curves::bezier::{BezierCurve, Curve, NormalCurve};
+
+fn hxp(p: Coord2) -> String { format!("{} {}", hx(p.0), hx(p.1)) }
+
+/// query points for the correspondence: the classes of the search plus points the property excludes (on the boundary, on a
+/// vertex, with the ray through a vertex or along an edge, outside the box, on the box) - the counting code is tied for all of them
+fn corr_point(rng: &mut Rng, k: usize, verts: &[Coord2], cs: &[Cubic], corner: Coord2, mn: Coord2, mx: Coord2) -> (Coord2, &'static str) {
+    let v = verts[rng.i(verts.len() as u64) as usize];
+    match k % 10 {
+        0 | 1 => (Coord2(rng.r(mn.0, mx.0), rng.r(mn.1, mx.1)), "uniform_in_box"),
+        2 => (Coord2(rng.r(mn.0 - 3.0, mx.0 + 3.0), rng.r(mn.1 - 3.0, mx.1 + 3.0)), "uniform_around_box"),
+        3 => (Coord2(rng.r(mn.0, mx.0), v.1), "level_with_vertex_y"),
+        4 => (Coord2(v.0, rng.r(mn.1, mx.1)), "level_with_vertex_x"),
+        5 => (corner + (v - corner) * rng.r(1.02, 1.6), "ray_through_vertex"),
+        6 => { let c = &cs[rng.i(cs.len() as u64) as usize]; (bez(c, rng.f()), "on_boundary") }
+        7 => (v, "on_vertex"),
+        8 => {
+            // the ray runs along a straight edge (or the chord of a curved one) and ends beyond it
+            let c = &cs[rng.i(cs.len() as u64) as usize];
+            let d = c[3] - c[0];
+            let l = len(d);
+            if l == 0.0 { (v, "on_vertex") } else { let far = if dist(c[0], corner) > dist(c[3], corner) { c[0] } else { c[3] }; (far + (far - corner) * (rng.r(0.05, 0.5)), "ray_towards_edge_end") }
+        }
+        _ => {
+            // near a tangent point of the ray direction
+            let c = &cs[rng.i(cs.len() as u64) as usize];
+            let t = rng.f();
+            let q = bez(c, t);
+            let d = bez_d(c, t);
+            let l = len(d);
+            if l == 0.0 { (q, "on_boundary") } else { (q + d * (rng.r(-2.0, 2.0) / l) + Coord2(-d.1, d.0) * (rng.r(-0.2, 0.2) / l), "near_boundary") }
+        }
+    }
+}
+
+/// One path, several query points. For every point: the answer of `path_contains_point`, and the collision list that
+/// `ray_collisions` returns for the ray of the implementation. `ray_collisions` itself is crate-private for a list of curves;
+/// its public door is `GraphPath::ray_collisions`, which runs the same generic function on the graph of the path. The
+/// graph keeps the path's curves (same order, same control points) when the path is clockwise and has no tiny edges -
+/// checked here, other paths are reversed first or skipped (counted).
+fn corr_path(stats: &mut Stats, rng: &mut Rng, path: &P, kind: &str, n_points: usize) {
+    let q: P = if path.is_clockwise() { path.clone() } else { stats.count("path.reversed_to_clockwise"); reversed(path) };
+    let curves: Vec<Curve<Coord2>> = path_to_curves(&q).collect();
+    let n = curves.len();
+    if n == 0 { stats.count("skipped.empty"); return; }
+    let gp = GraphPath::from_path(&q, ());
+    let mut same = gp.num_points() == n;
+    if same {
+        for i in 0..n {
+            let es: Vec<_> = gp.edges_for_point(i).collect();
+            if es.len() != 1 { same = false; break; }
+            let e = &es[0];
+            let (c1, c2) = e.control_points();
+            let (d1, d2) = curves[i].control_points();
+            if e.start_point_index() != i || e.end_point_index() != (i + 1) % n || e.start_point() != curves[i].start_point() || c1 != d1 || c2 != d2
+                || (e.end_point() != curves[i].end_point()) { same = false; break; }
+        }
+    }
+    if !same { stats.count("skipped.graph_edges_differ_from_path_curves"); return; }
+    let (minb, maxb): (Coord2, Coord2) = q.bounding_box();
+    let cs = cubics(&q);
+    let verts = vertices(&q);
+    let corner = maxb + Coord2(0.01, 0.01);
+    let all_straight = cs.iter().all(is_straight);
+    let mut ins = format!("#{}", n);
+    for c in &curves { let (c1, c2) = c.control_points(); ins += &format!(" {} {} {} {}", hxp(c.start_point()), hxp(c1), hxp(c2), hxp(c.end_point())); }
+    ins += &format!(" {} {} #{}", hxp(minb), hxp(maxb), n_points);
+    let mut outs = String::new();
+    let mut any_counted = false;
+    for k in 0..n_points {
+        let (p, pclass) = corr_point(rng, k, &verts, &cs, corner, minb, maxb);
+        stats.count(&format!("point.{}", pclass));
+        // the ray as path_contains_point builds it
+        let ray = (maxb + Coord2::from_components(&[0.01, 0.01]), p);
+        let ray_direction = ray.1 - ray.0;
+        let detail = || format!("point={:?} kind={} path={:?}", p, kind, q);
+        let answer = match run_caught(stats, PROP, "path_contains_point", &detail, || path_contains_point(&q, &p)) { Some(a) => a, None => { ins += &format!(" {} {} #0", hxp(p), hxp(ray.0)); outs += " #2"; continue } };
+        let colls = match run_caught(stats, PROP, "ray_collisions", &detail, || gp.ray_collisions(&ray)) { Some(c) => c, None => { ins += &format!(" {} {} #0", hxp(p), hxp(ray.0)); outs += " #2"; continue } };
+        ins += &format!(" {} {} #{}", hxp(p), hxp(ray.0), colls.len());
+        outs += &format!(" #{}", answer as u8);
+        let mut counted = 0;
+        let mut stopped = false;
+        for (collision, curve_t, line_t, pos) in &colls {
+            let idx = gp.get_edge(collision.edge()).start_point_index();
+            let normal = curves[idx].normal_at_pos(*curve_t);
+            let d = ray_direction.dot(&normal);
+            let direction = d.signum() as i32;
+            ins += &format!(" #{} {} {} {}", idx, hx(*curve_t), hx(*line_t), hxp(*pos));
+            outs += &format!(" {} #{}", hxp(normal), direction);
+            if *line_t > 1.0 { stopped = true; }
+            if !stopped { counted += 1; if d == 0.0 { stats.count("collision.direction_from_zero_dot_product"); } }
+            else if !(*line_t > 1.0) { stats.count("collision.not_counted_although_before_point(list_not_sorted)"); }
+            if *curve_t == 0.0 || *curve_t == 1.0 { stats.count("collision.at_curve_end(t_nudged)"); }
+        }
+        // the hypotheses of the Lean theorems, evaluated on the real list (counted only; the theorems assume them):
+        // (a) StopClosed: no collision before the point after one beyond it
+        let mut seen_beyond = false;
+        let mut stop_closed = true;
+        for (_, _, line_t, _) in &colls { if *line_t > 1.0 { seen_beyond = true; } else if seen_beyond { stop_closed = false; } }
+        stats.count(if stop_closed { "hypothesis.stop_closed.holds" } else { "hypothesis.stop_closed.violated" });
+        // (b) Faithful (polygon_contains_iff_winding): for a polygon and a ray in general position (its line 0.1 clear of every
+        // vertex, the point 0.1 clear of the boundary) the counted collisions are exactly one per edge that crosses the ray
+        if all_straight && minb.0 <= p.0 && p.0 <= maxb.0 && minb.1 <= p.1 && p.1 <= maxb.1 {
+            let d = ray.0 - p;
+            let dl = len(d);
+            let general = verts.iter().all(|v| (cross(d, *v - p) / dl).abs() > 0.1) && (0..n).all(|i| dist_seg(p, verts[i], verts[(i + 1) % n]) > 0.1);
+            if general {
+                let mut crossing: Vec<usize> = (0..n).filter(|i| {
+                    let (a, b) = (verts[*i] - p, verts[(*i + 1) % n] - p);
+                    (cross(d, a) < 0.0 && cross(d, b) > 0.0 && cross(a, b) > 0.0) || (cross(d, b) < 0.0 && cross(d, a) > 0.0 && cross(a, b) < 0.0)
+                }).collect();
+                let mut counted_idx: Vec<usize> = colls.iter().take_while(|(_, _, line_t, _)| !(*line_t > 1.0)).map(|(c, _, _, _)| gp.get_edge(c.edge()).start_point_index()).collect();
+                crossing.sort(); counted_idx.sort();
+                let ts_ok = colls.iter().take_while(|(_, _, line_t, _)| !(*line_t > 1.0)).all(|(_, t, _, _)| 0.0 <= *t && *t <= 1.0);
+                stats.count(if crossing == counted_idx && ts_ok { "hypothesis.faithful(polygon,general_position).holds" } else { "hypothesis.faithful(polygon,general_position).violated" });
+            } else { stats.count("hypothesis.faithful.not_evaluated(ray_or_point_not_in_general_position)"); }
+        }
+        // (c) equivariance under the start vertex (contains_start_vertex_invariant): the same path started at its k-th curve gives the
+        // same collisions with shifted indices (compared bit for bit as multisets)
+        if n > 1 {
+            let shift = 1 + rng.i((n - 1) as u64) as usize;
+            let rot = rotate_start(&q, shift);
+            let (rmin, rmax): (Coord2, Coord2) = rot.bounding_box();
+            if rot.is_clockwise() && rmin == minb && rmax == maxb {
+                let gp2 = GraphPath::from_path(&rot, ());
+                if gp2.num_points() == n {
+                    if let Ok(colls2) = std::panic::catch_unwind(std::panic::AssertUnwindSafe(|| gp2.ray_collisions(&ray))) {
+                        let mut a: Vec<(usize, u64, u64)> = colls.iter().map(|(c, t, lt, _)| (gp.get_edge(c.edge()).start_point_index(), t.to_bits(), lt.to_bits())).collect();
+                        let mut b: Vec<(usize, u64, u64)> = colls2.iter().map(|(c, t, lt, _)| ((gp2.get_edge(c.edge()).start_point_index() + shift) % n, t.to_bits(), lt.to_bits())).collect();
+                        a.sort(); b.sort();
+                        stats.count(&format!("hypothesis.start_vertex_equivariant.{}", if a == b { "holds".to_string() } else { format!("violated.{}", pclass) }));
+                        if a != b {
+                            // outside the property's precondition (the ray passes within 0.1 of a vertex): does the answer move as well?
+                            if let Ok(ans2) = std::panic::catch_unwind(std::panic::AssertUnwindSafe(|| path_contains_point(&rot, &p))) {
+                                if ans2 != answer {
+                                    stats.count(&format!("outside_precondition.answer_depends_on_start_vertex.{}", pclass));
+                                }
+                            }
+                        }
+                    }
+                }
+            }
+        }
+        stats.count(&format!("collisions.{}", if colls.len() > 6 { "7+".to_string() } else { colls.len().to_string() }));
+        stats.count(&format!("counted.{}", if counted > 4 { "5+".to_string() } else { counted.to_string() }));
+        stats.count(if answer { "answer.inside" } else { "answer.outside" });
+        if counted > 0 { any_counted = true; }
+    }
+    let line = format!("C07 contains R {} |{}", ins, outs);
+    stats.case(&line, any_counted);
+    stats.add("points", n_points as u64);
+    println!("{}", line);
+}
+
+/// `normal_at_pos` / `tangent_at_pos` on single curves, incl. t = 0 and t = 1 (where the code moves t by f64::EPSILON)
+fn corr_normal(stats: &mut Stats, rng: &mut Rng) {
+    let (w, kind) = crate::c06::gen_points::<Coord2>(rng);
+    let c = Curve::from_points(w[0], (w[1], w[2]), w[3]);
+    let (t, tclass) = match rng.i(8) { 0 => (0.0, "t=0"), 1 => (1.0, "t=1"), 2 => (f64::EPSILON, "t=eps"), 3 => (1.0 - f64::EPSILON, "t=1-eps"), 4 => (rng.r(-0.5, 1.5), "t_outside"), _ => (rng.f(), "t_inside") };
+    let nrm = c.normal_at_pos(t);
+    let tan = c.tangent_at_pos(t);
+    let line = format!("C07 normal R {} {} {} {} {} | {} {}", hxp(w[0]), hxp(w[1]), hxp(w[2]), hxp(w[3]), hx(t), hxp(nrm), hxp(tan));
+    stats.case(&line, kind != "point");
+    stats.count(&format!("normal.{}.{}", kind, tclass));
+    println!("{}", line);
+}
+
+pub fn corr(seed: u64, n: u64) {
+    quiet_panics();
+    let mut rng = Rng(seed ^ 0xC07C0);
+    let mut stats = Stats::new();
+    let fixed: Vec<(&str, P)> = vec![
+        ("circle", circle(50.0, 50.0, 20.0)),
+        ("circle45", circle45(50.0, 50.0, 20.0)),
+        ("grid_rect", rect(20.0, 30.0, 60.0, 50.0)),
+        ("l_shape", polygon(&l_shape_points(20.0, 20.0, 40.0, 30.0, 20.0, 10.0))),
+        ("collinear_polygon", polygon(&with_collinear_vertices(&[Coord2(20.0, 20.0), Coord2(70.0, 30.0), Coord2(60.0, 70.0), Coord2(30.0, 60.0)]))),
+    ];
+    for (kind, p) in &fixed {
+        stats.count(&format!("corpus.{}", kind));
+        corr_path(&mut stats, &mut rng, p, kind, 40);
+        corr_path(&mut stats, &mut rng, &reversed(p), kind, 40);
+    }
+    for i in 0..n {
+        if i % 4 == 3 { corr_normal(&mut stats, &mut rng); continue; }
+        let s = rand_shape(&mut rng);
+        let p = redirect(&mut rng, &s.path);
+        stats.count(&format!("kind.{}", s.kind));
+        corr_path(&mut stats, &mut rng, &p, s.kind, 10);
+    }
+    stats.print(PROP, "corr");
 }
